@@ -4,6 +4,7 @@ mod codemc;
 mod libmc;
 mod tmomc;
 mod histmc;
+mod schedmc;
 mod workers;
 mod run;
 mod hostobj;
@@ -34,6 +35,10 @@ fn main() {
         let mode = argv.first().cloned().unwrap_or_default();
         let code = match mode.as_str() {
             "code-run" => workers::worker_loop(&mut |req| codemc::worker_run(req)),
+            #[cfg(feature = "arc")]
+            "sched-explore" => workers::worker_loop(&mut |req| schedmc::arc_side::worker_explore(req)),
+            #[cfg(feature = "arc")]
+            "arc-run" => workers::worker_loop(&mut |req| schedmc::arc_side::worker_arc_run(req)),
             "tmo-run" => workers::worker_loop(&mut |req| tmomc::worker_run(req)),
             "lib-call" => workers::worker_loop(&mut |req| libmc::worker_call(req)),
             _ => 2,
@@ -47,6 +52,7 @@ fn main() {
         "libmc" => libmc::run(&args),
         "tmomc" => tmomc::run(&args),
         "histmc" => histmc::run(&args),
+        "schedmc" => schedmc::run(&args),
         "progmc-core" => progmc::run_profile(
             &args,
             run::RunCfg::default(),
